@@ -17,6 +17,8 @@ Next ==
                               /\ Report("Digits", e.digitsok)
                               /\ Report("RoundTrip", e.roundtrip)
        [] e.ev = "decode" -> Report("NoPanic", ~e.panic)
+       \* a nested struct held by a pointer that is nil: nothing is encoded for it, the rest round-trips
+       [] e.ev = "marshal-nilptr" -> Report("NoPanic", ~e.panic) /\ Report("RoundTrip", e.panic \/ e.roundtrip)
        [] OTHER -> TRUE
   /\ l' = l + 1
 Accepted == TLCGet("stats").diameter = Len(Trace) + 1
